@@ -6,18 +6,42 @@
 // a reference model over "option path -> value" maps: expected = defaults, overwritten by what the file says,
 // overwritten by what the flags say. Options and flags are discovered by reflection; the files of the precedence
 // cases are written by the harness's own YAML writer (never by the code under test).
+//
+// # Reading of the statement (what is demanded, and what is not)
+//
+//   - Every case in which a flag takes part runs twice: on one command carrying all flags, and in the topology of the
+//     real binaries (root command with AddGlobalFlags as persistent flags, subcommand with AddFlags, `root run --flag..`
+//     executed, config.Load called with the subcommand).
+//   - A Load error is a precedence failure only if no single value explains it: when one (option, value) of the case
+//     makes Load fail all by itself, alone in the file AND alone as a flag, the implementation rejects that VALUE
+//     (validation); such cases are counted (load_rejects_value:*), not judged.
+//   - A field tagged yaml:"-" AND mapstructure:"-" is by construction not an option of the file (RootDir). A field the
+//     writer skips (yaml:"-") but the loader still decodes is an option and is judged like every other one, under its
+//     mapstructure path.
+//   - A flag that names an option of a kind the check cannot generate values for (slice, map, pointer) is judged on
+//     the raw field (reflect.DeepEqual before/after) or is inconclusive; it is never "silently ignored".
+//   - Strings: any valid UTF-8 string, including tab, line breaks, control and format characters, must survive
+//     SaveAsYaml -> Load.
+//   - Invalid genesis files are derived from a valid one through its parsed form (members found by value, re-marshalled),
+//     so that nothing depends on key names, indentation or a trailing newline: a member the validity rules speak about
+//     (chain id, initial height, start time, proposer address) absent / null / of an impossible JSON type; prefixes that
+//     are not themselves a JSON document; content after the object. Members the rules do not mention are left alone.
 package c18
 
 import (
 	"errors"
 	"fmt"
+	"io"
 	"math/rand"
 	"os"
 	"path/filepath"
+	"reflect"
 	"sort"
 	"strings"
+	"time"
 
 	"github.com/evstack/ev-node/pkg/config"
+	"github.com/spf13/cobra"
 	"github.com/spf13/viper"
 
 	"verifharness/vk"
@@ -47,6 +71,10 @@ type Case struct {
 	FileText string   `json:"file_text,omitempty"` // exact content of <home>/config/evnode.yaml ("" with HasFile=false: no file)
 	HasFile  bool     `json:"has_file"`
 	Args     []string `json:"args,omitempty"`
+	// Topology: "" = one command carrying AddFlags + AddGlobalFlags, ParseFlags + Load on it; "subcommand" = root command
+	// with the global flags as persistent flags, subcommand with the node flags, `root run --flag...` executed, Load
+	// called with the subcommand from its RunE (the shape of every real binary)
+	Topology string `json:"topology,omitempty"`
 }
 
 type harness struct {
@@ -65,6 +93,7 @@ type harness struct {
 	clean        []string
 	fileOK       map[string]bool // option -> set from the file with a non-default value
 	flagOK       map[string]bool // flag name -> reached its option with a value different from the competing source
+	flagOKSub    map[string]bool // the same in the subcommand topology
 }
 
 func tempDir(root, pattern string) string {
@@ -210,20 +239,45 @@ func (h *harness) setFile(c *Case) {
 func (h *harness) load(c *Case) (o outcome) {
 	h.restoreDefaults()
 	defer h.restoreDefaults()
-	cmd := newCommand()
 	c.Args = append([]string{"--" + config.FlagRootDir + "=" + h.home}, args(c.Flags)...)
-	if err := cmd.ParseFlags(c.Args); err != nil {
-		o.ParseErr = err
-		return o
-	}
-	func() {
-		defer func() {
-			if p := recover(); p != nil {
-				o.Panic = fmt.Sprint(p)
+	if c.Topology == "subcommand" {
+		ran := false
+		root := newCommandTree(func(sub *cobra.Command) error {
+			ran = true
+			defer func() {
+				if p := recover(); p != nil {
+					o.Panic = fmt.Sprint(p)
+				}
+			}()
+			o.Cfg, o.Err = config.Load(sub)
+			return nil
+		})
+		c.Args = append([]string{"run"}, c.Args...)
+		root.SetArgs(c.Args)
+		root.SetOut(io.Discard)
+		root.SetErr(io.Discard)
+		if err := root.Execute(); err != nil || !ran {
+			if err == nil {
+				err = errors.New("the subcommand was not run")
 			}
+			o.ParseErr = err
+			return o
+		}
+	} else {
+		cmd := newCommand()
+		if err := cmd.ParseFlags(c.Args); err != nil {
+			o.ParseErr = err
+			return o
+		}
+		func() {
+			defer func() {
+				if p := recover(); p != nil {
+					o.Panic = fmt.Sprint(p)
+				}
+			}()
+			o.Cfg, o.Err = config.Load(cmd)
 		}()
-		o.Cfg, o.Err = config.Load(cmd)
-	}()
+	}
 	if o.Panic != "" {
 		h.checkDefaults(c, nil)
 		return o
@@ -307,14 +361,94 @@ func (h *harness) judge(c *Case, o outcome, want Vals, clause string) ([]Diff, b
 		h.violation(clause, "panic", "config.Load panicked: "+o.Panic, map[string]any{"case": c})
 		return nil, false
 	case o.Err != nil:
+		if path, text := h.rejectedValue(c); path != "" {
+			// the same value is refused when it is the only thing in the file and when it is the only flag: the
+			// implementation rejects this VALUE (validation), which says nothing about precedence
+			h.r.Count("load_rejects_value:"+path+"="+trunc(text, 24), 1)
+			return nil, false
+		}
 		h.violation(clause, "err:"+errSig(o.Err), fmt.Sprintf("config.Load failed on a valid file / valid flags: %v", o.Err), map[string]any{"case": c})
 		return nil, false
 	}
 	if o.RootDir != h.home {
-		h.r.Violation("home-flag", fmt.Sprintf("RootDir is %q, --home said %q", o.RootDir, h.home), map[string]any{"case": c})
+		h.violation("home-flag", c.Topology, fmt.Sprintf("RootDir is %q, --home said %q (topology %q)", o.RootDir, h.home, c.Topology), map[string]any{"case": c})
 		return nil, false
 	}
 	return h.d.diff(want, o.Vals), true
+}
+
+func trunc(s string, n int) string {
+	if len(s) > n {
+		return s[:n] + "…"
+	}
+	return s
+}
+
+// rejectedValue looks, after a failed Load, for a single (option, value) of the case that makes Load fail all by
+// itself: alone in the file AND (if the option has a flag) alone on the command line. It returns "" if there is none.
+func (h *harness) rejectedValue(c *Case) (string, string) {
+	type cand struct {
+		l    *Leaf
+		a    Assign
+		flag string
+	}
+	var cands []cand
+	seen := map[string]bool{}
+	add := func(a Assign) {
+		l := h.d.ByPath[a.Path]
+		if l == nil || seen[a.Path+"|"+show(a.val)] {
+			return
+		}
+		seen[a.Path+"|"+show(a.val)] = true
+		cands = append(cands, cand{l: l, a: a})
+	}
+	if c.HasFile {
+		for _, a := range c.File {
+			add(a)
+		}
+	}
+	for _, a := range c.Flags {
+		add(a)
+	}
+	saved := *c
+	defer func() { h.setFile(&saved) }()
+	for _, cd := range cands {
+		v := valueOf(cd.l, cd.a.val)
+		inFile := &Case{Region: "rejected-value-probe", Field: cd.l.Path, File: []Assign{assign(cd.l, v)}, HasFile: true, Topology: c.Topology}
+		inFile.FileText = renderYAML(inFile.File)
+		h.setFile(inFile)
+		if o := h.load(inFile); o.Err == nil || o.Panic != "" {
+			continue
+		}
+		if f := cd.l.Flag; f != nil {
+			asFlag := &Case{Region: "rejected-value-probe", Field: cd.l.Path, Flags: []Assign{flagAssign(cd.l, f, v)}, Topology: c.Topology}
+			h.setFile(asFlag)
+			if o := h.load(asFlag); o.ParseErr != nil || o.Err == nil || o.Panic != "" {
+				continue
+			}
+		}
+		return cd.l.Path, v.Flag
+	}
+	return "", ""
+}
+
+// valueOf renders a normalised value as file / flag text (the plainest spelling).
+func valueOf(l *Leaf, x any) Value {
+	switch t := x.(type) {
+	case string:
+		return strValue(nil, t)
+	case bool:
+		return Value{V: t, File: fmt.Sprint(t), Flag: fmt.Sprint(t)}
+	case int64:
+		return Value{V: t, File: fmt.Sprint(t), Flag: fmt.Sprint(t)}
+	case uint64:
+		return Value{V: t, File: fmt.Sprint(t), Flag: fmt.Sprint(t)}
+	case float64:
+		return floatValue(t)
+	case time.Duration:
+		return durValue(nil, t, "")
+	}
+	return Value{V: x, File: fmt.Sprint(x), Flag: fmt.Sprint(x)}
 }
 
 func assign(l *Leaf, v Value) Assign { return Assign{Path: l.Path, Text: v.File, val: v.V} }
@@ -400,8 +534,21 @@ func (h *harness) patterns(rng *rand.Rand, nvals int) {
 	}
 }
 
+// runPattern runs one pattern case on the flat command and, when a flag takes part, once more in the topology of the
+// real binaries (global flags persistent on the root, node flags on the subcommand that reaches Load).
 func (h *harness) runPattern(c *Case, l *Leaf, flag *FlagInfo, legacy bool, v, lower Value, hasFile, hasFlag bool) {
+	h.runPatternIn(c, l, flag, legacy, v, lower, hasFile, hasFlag)
+	if hasFlag {
+		c2 := *c
+		c2.Topology = "subcommand"
+		c2.Region += "/subcommand"
+		h.runPatternIn(&c2, l, flag, legacy, v, lower, hasFile, hasFlag)
+	}
+}
+
+func (h *harness) runPatternIn(c *Case, l *Leaf, flag *FlagInfo, legacy bool, v, lower Value, hasFile, hasFlag bool) {
 	r := h.r
+	sub := c.Topology == "subcommand"
 	h.setFile(c)
 	o := h.load(c)
 	want := h.expected(c)
@@ -434,6 +581,14 @@ func (h *harness) runPattern(c *Case, l *Leaf, flag *FlagInfo, legacy bool, v, l
 		if hasFile {
 			competitor = lower.V
 		}
+		if sub {
+			r.Hit("flags-under-a-subcommand")
+			if hasFlag && v.V != competitor && !legacy && !h.flagOKSub[flag.Name] {
+				h.flagOKSub[flag.Name] = true
+				r.Hit("every-flag-reaches-the-option-it-names/subcommand")
+			}
+			return
+		}
 		if hasFlag && v.V != competitor && !h.flagOK[flag.Name] {
 			h.flagOK[flag.Name] = true
 			if legacy {
@@ -461,7 +616,11 @@ func (h *harness) runPattern(c *Case, l *Leaf, flag *FlagInfo, legacy bool, v, l
 			return
 		}
 	}
-	h.violation(clause, diffSig(diffs), fmt.Sprintf("option %s, %s, value %s: %s", l.Path, c.Pattern, show(v.V), diffText(diffs)), w)
+	topo := ""
+	if sub {
+		topo = " [root command with persistent global flags + subcommand with the node flags, Load(subcommand)]"
+	}
+	h.violation(clause, c.Topology+diffSig(diffs), fmt.Sprintf("option %s, %s, value %s%s: %s", l.Path, c.Pattern, show(v.V), topo, diffText(diffs)), w)
 }
 
 // sample hands a sample to the evidence only for every 173rd case, so that the few samples kept come from
@@ -554,17 +713,19 @@ func (h *harness) flagClasses() {
 		case "by-design":
 			if f.Name == config.FlagRootDir {
 				// reaches RootDir: judged in every single case (judge compares RootDir with --home)
-				c := &Case{Region: "by-design-flag", Field: f.Name}
-				h.setFile(c)
-				o := h.load(c)
-				if diffs, ok := h.judge(c, o, h.def, "home-flag"); ok {
-					if len(diffs) > 0 {
-						r.Violation("home-flag", "--home alone changed options: "+diffText(diffs), map[string]any{"case": c, "diffs": diffs})
-					} else {
-						r.Hit("home-flag")
+				for _, topo := range []string{"", "subcommand"} {
+					c := &Case{Region: "by-design-flag", Field: f.Name, Topology: topo}
+					h.setFile(c)
+					o := h.load(c)
+					if diffs, ok := h.judge(c, o, h.def, "home-flag"); ok {
+						if len(diffs) > 0 {
+							r.Violation("home-flag", "--home alone changed options: "+diffText(diffs), map[string]any{"case": c, "diffs": diffs})
+						} else {
+							r.Hit("home-flag")
+						}
 					}
+					r.Eval("by-design|"+f.Name+"|"+topo, false, nil)
 				}
-				r.Eval("by-design|"+f.Name, false, nil)
 				continue
 			}
 			// the passphrase: changes no option and is never written to disk
@@ -593,6 +754,27 @@ func (h *harness) flagClasses() {
 				continue
 			}
 			r.Hit("passphrase-flag")
+		case "unsupported-kind":
+			// The flag names an option whose kind (slice, map, pointer) this check cannot generate values for. Whether
+			// the flag reaches it is judged on the raw field: it must differ from the default after the flag was given.
+			// A probe text the flag type does not accept, or an unchanged field, decide nothing (the probe may be the
+			// default, or not a legal value).
+			text := "7"
+			if strings.HasPrefix(f.Type, "stringTo") {
+				text = "c18key=7"
+			}
+			c := &Case{Region: "flag-of-unsupported-kind", Field: f.Name, Flags: []Assign{{Flag: f.Name, Text: text}}}
+			h.setFile(c)
+			o := h.load(c)
+			r.Eval("unsupported-kind|"+f.Name, true, nil)
+			switch {
+			case o.ParseErr != nil || o.Err != nil || o.Panic != "":
+				r.Inconclusive(fmt.Sprintf("flag --%s (%s) names the option %s of a kind this check cannot generate values for; the probe %q was not accepted: %v %v %s", f.Name, f.Type, f.Leaf.Path, text, o.ParseErr, o.Err, o.Panic))
+			case !reflect.DeepEqual(rawField(&o.Cfg, f.Leaf), rawField(&h.defCfg, f.Leaf)):
+				r.Count("flag_reaches_option_of_unsupported_kind", 1)
+			default:
+				r.Inconclusive(fmt.Sprintf("flag --%s (%s) names the option %s of a kind this check cannot generate values for; the probe %q left the field as it was", f.Name, f.Type, f.Leaf.Path, text))
+			}
 		case "unmatched":
 			text := map[string]string{"string": "c18-probe-value", "bool": "true", "duration": "7h7m7s", "float64": "7.25", "float32": "7.25"}[f.Type]
 			if text == "" {
@@ -636,6 +818,9 @@ func (h *harness) mixed(rng *rand.Rand, n int) {
 	}
 	for i := 0; i < n; i++ {
 		c := &Case{Region: "mixed"}
+		if i%2 == 1 {
+			c.Topology = "subcommand"
+		}
 		h.background(rng, c, nil)
 		if passphrase != nil && rng.Intn(4) == 0 {
 			c.Flags = append(c.Flags, Assign{Flag: passphrase.Name, Text: randomCleanString(rng)})
@@ -672,13 +857,13 @@ func (h *harness) mixed(rng *rand.Rand, n int) {
 		if len(c.Flags) > 0 {
 			nsrc++
 		}
-		r.Eval(fmt.Sprintf("mixed|%v|%s|%v", bySave, c.FileText, args(c.Flags)), nsrc > 0, sampleOf(c, nil, want))
+		r.Eval(fmt.Sprintf("mixed|%v|%s|%s|%v", bySave, c.Topology, c.FileText, args(c.Flags)), nsrc > 0, sampleOf(c, nil, want))
 		diffs, ok := h.judge(c, o, want, "mixed-precedence")
 		if !ok {
 			continue
 		}
 		if len(diffs) > 0 {
-			h.violation("mixed-precedence", diffSig(diffs), fmt.Sprintf("%d options in the file, %d flags: %s", len(c.File), len(c.Flags), diffText(diffs)), map[string]any{"case": c, "diffs": diffs})
+			h.violation("mixed-precedence", c.Topology+diffSig(diffs), fmt.Sprintf("%d options in the file, %d flags (topology %q): %s", len(c.File), len(c.Flags), c.Topology, diffText(diffs)), map[string]any{"case": c, "diffs": diffs})
 			continue
 		}
 		r.Hit("mixed-precedence")
@@ -788,6 +973,21 @@ func (h *harness) judgeRoundTrip(c *Case, written Vals, o outcome) {
 	}
 	inTrigger := len(q)+len(ts)+len(num) > 0
 	if o.Err != nil {
+		// a value the implementation refuses wherever it comes from (alone in a harness-written file and alone as a
+		// flag) is a rejected VALUE, not a failure of the round trip
+		probe := &Case{Region: "rejected-value-probe", HasFile: true, Topology: c.Topology}
+		for _, l := range h.d.Leaves {
+			if x, ok := written[l.Path]; ok && x != nil {
+				probe.File = append(probe.File, assign(l, valueOf(l, x)))
+			}
+		}
+		saved := *c
+		path, text := h.rejectedValue(probe)
+		h.setFile(&saved)
+		if path != "" {
+			r.Count("load_rejects_value:"+path+"="+trunc(text, 24), 1)
+			return
+		}
 		// predicted shape of C18-timestamp-like-strings: Load refuses the file with a decoding error
 		if len(q) == 0 && len(ts) > 0 && errors.Is(o.Err, config.ErrReadYaml) {
 			h.finding(idTimestamp, "save-load", fmt.Sprintf("%s = %s is saved unquoted, the reader takes it for a timestamp and Load fails: %v",
@@ -931,6 +1131,61 @@ func (h *harness) survey(rng *rand.Rand, nRandom int) {
 	}
 }
 
+// surveyControl: SaveAsYaml -> Load of strings with tabs, line breaks, control and format characters (valid UTF-8
+// throughout), one string option at a time and in whole configurations whose string options all hold such strings.
+func (h *harness) surveyControl(rng *rand.Rand, nRandom int) {
+	var strLeaves []*Leaf
+	for _, l := range h.d.Leaves {
+		if l.Kind == "string" {
+			strLeaves = append(strLeaves, l)
+		}
+	}
+	if len(strLeaves) == 0 {
+		return
+	}
+	list := append([]string{}, curatedControl...)
+	for i := 0; i < nRandom; i++ {
+		list = append(list, randomFrom(rng, controlAlphabet, 1+rng.Intn(12)))
+	}
+	seen := map[string]bool{}
+	k := 0
+	for _, s := range list {
+		if seen[s] || triggered(s) {
+			continue
+		}
+		seen[s] = true
+		l := strLeaves[k%len(strLeaves)]
+		k++
+		vals := h.def.clone()
+		vals[l.Path] = s
+		c := &Case{Region: "survey/control-characters", Field: l.Path}
+		o, ok := h.saveLoad(c, vals)
+		h.r.Eval("survey-control|"+s, true, map[string]any{"region": c.Region, "option": l.Path, "string": s})
+		if ok {
+			before := h.r.Violations()
+			h.judgeRoundTrip(c, vals, o)
+			if h.r.Violations() == before && o.Err == nil && o.Panic == "" && !printable(s) {
+				h.r.Hit("save-load/control-characters")
+			}
+		}
+	}
+	for i := 0; i < nRandom/10+3; i++ {
+		vals := h.randomWhole(rng)
+		for _, l := range strLeaves {
+			vals[l.Path] = list[rng.Intn(len(list))]
+			if triggered(vals[l.Path].(string)) {
+				vals[l.Path] = "a\nb"
+			}
+		}
+		c := &Case{Region: "save-load/control-characters"}
+		o, ok := h.saveLoad(c, vals)
+		h.r.Eval("control-whole|"+fmt.Sprint(stringVals(vals)), true, nil)
+		if ok {
+			h.judgeRoundTrip(c, vals, o)
+		}
+	}
+}
+
 // triggerWholes: random whole configurations in which 1-3 string options hold strings of one trigger class.
 func (h *harness) triggerWholes(rng *rand.Rand, n int) {
 	var strLeaves []*Leaf
@@ -1012,8 +1267,9 @@ func Run(r *vk.Run) {
 	r.Rule = "options = leaf fields of config.Config found by reflection (yaml-tag paths), flags = VisitAll over AddFlags+AddGlobalFlags; " +
 		"pattern cases: every option x (background quiet|noisy, file absent|present, flag absent|present) x N values of its type " +
 		"(bools; ints 0,1,max,...; floats incl. negatives and extremes; durations; printable single-line strings incl. YAML-significant ones), " +
+		"every case with a flag also under the command topology of the real binaries (root with persistent global flags, subcommand with the node flags, Load(subcommand)); " +
 		"the higher source carries the value, the lower one a different value; mixed cases: every option independently from default|file|flag|both, file written by the harness or by SaveAsYaml; " +
-		"save-load cases: random whole configurations through SaveAsYaml -> Load; survey: one probe string in one string option; genesis cases. " +
+		"save-load cases: random whole configurations through SaveAsYaml -> Load; survey: one probe string in one string option, incl. strings with tab / line breaks / control and format characters (valid UTF-8); genesis cases. " +
 		"non-trivial = at least one of file/flag present (>= 2 sources compete); distinct by parameter tuple (region, option, pattern, value texts / full file+args)"
 	r.Assume("no environment variable is named after a configuration key (viper's AutomaticEnv would make it a fourth source); the check unsets such names at start")
 	r.Assume("cases run one at a time in this process; config.DefaultConfig is restored to its start-up value before and after every Load")
@@ -1023,7 +1279,7 @@ func Run(r *vk.Run) {
 	unsetEnv(d)
 	scratch := tempDir(vk.Root(), "C18-*")
 	defer os.RemoveAll(scratch)
-	h := &harness{r: r, d: d, scratch: scratch, home: filepath.Join(scratch, "home"), calls: map[string]int{}, sigs: map[string]int{}, fileOK: map[string]bool{}, flagOK: map[string]bool{}}
+	h := &harness{r: r, d: d, scratch: scratch, home: filepath.Join(scratch, "home"), calls: map[string]int{}, sigs: map[string]int{}, fileOK: map[string]bool{}, flagOK: map[string]bool{}, flagOKSub: map[string]bool{}}
 	h.cfgPath = filepath.Join(h.home, config.AppConfigDir, config.ConfigName)
 	_ = os.MkdirAll(filepath.Dir(h.cfgPath), 0o755)
 	h.defCfg = config.DefaultConfig
@@ -1064,6 +1320,20 @@ func Run(r *vk.Run) {
 	r.Set("fields", fields)
 	r.Set("flags", flags)
 	r.Set("fields_without_flag", noFlag)
+	// Absolute floor (evidence, not a verdict): the pinned commit has 34 options and 35 flags. Fewer means that options
+	// or flags were removed or are hidden from discovery; the Requires below scale with what WAS discovered.
+	const floorOptions, floorFlags = 34, 35
+	r.Count("options_discovered", int64(len(d.Leaves)))
+	r.Count("flags_discovered", int64(len(d.Flags)))
+	if len(d.Leaves) < floorOptions {
+		r.Count("options_discovered_below_the_floor_of_the_pinned_commit", int64(floorOptions-len(d.Leaves)))
+	}
+	if len(d.Flags) < floorFlags {
+		r.Count("flags_discovered_below_the_floor_of_the_pinned_commit", int64(floorFlags-len(d.Flags)))
+	}
+	r.Set("discovery_floor_note", fmt.Sprintf("pinned commit: %d options, %d flags; this run: %d options, %d flags", floorOptions, floorFlags, len(d.Leaves), len(d.Flags)))
+	r.Set("fields_neither_written_nor_read_from_the_file", d.NotInFile)
+	r.Set("fields_the_writer_skips_but_the_loader_reads", d.HiddenFromWriter)
 	r.Set("flag_classes", map[string]int{"names_an_option": nField, "by_design_not_an_option": nByDesign, "legacy_signer_trigger_region": nLegacy, "names_no_option": nUnmatched})
 	for _, u := range d.Unsupported {
 		r.Inconclusive("option of a type this check has no value generator for: " + u)
@@ -1089,6 +1359,7 @@ func Run(r *vk.Run) {
 	h.mixed(r.Rand("mixed"), r.N(200, 2000))
 	h.roundTrips(r.Rand("save-load"), r.N(200, 5000))
 	h.survey(r.Rand("survey"), r.N(600, 12000))
+	h.surveyControl(r.Rand("control-characters"), r.N(150, 3000))
 	h.triggerWholes(r.Rand("trigger-wholes"), r.N(60, 600))
 	genesisChecks(h, r.Rand("genesis"), r.N(200, 5000))
 
@@ -1110,11 +1381,13 @@ func Run(r *vk.Run) {
 	r.Set("flags_never_seen_reaching_their_option", missFlag)
 	r.Require("every-option-settable-from-file", int64(len(d.Leaves)))
 	r.Require("every-flag-reaches-the-option-it-names", int64(nField))
+	r.Require("every-flag-reaches-the-option-it-names/subcommand", int64(nField))
 	r.Require("flag-over-file", int64(nField))
 	r.Require("file-over-default", int64(len(d.Leaves)))
 	r.Require("flag-over-default", int64(nField))
 	r.Require("default-when-absent", int64(len(d.Leaves)))
 	r.Require("save-load", int64(r.N(100, 2500)))
+	r.Require("save-load/control-characters", int64(r.N(100, 1500)))
 	r.Require("mixed-precedence", int64(r.N(100, 1000)))
 	r.Require("genesis-round-trip", int64(r.N(100, 2500)))
 	r.Require("genesis-invalid-refused", 50)
